@@ -12,9 +12,9 @@ def run(ctx):
                 "objects are proper and carry the error; (c) scenarios: a callback raises at every position of the item stream, channel object alive "
                 "or dropped, sibling conversation active; remote body raising after n items with 1-3 receivers: RemoteError exactly once after all "
                 "earlier items, failing side closed with a proper error, sibling undisturbed, receiver thread alive")
-    netprops.op_level(ctx, res, PROP, ctx.budget(350, 3000, 500), profile={"cbfail": 0.2})
-    netprops.run_scenarios(ctx, res, netprops.scenario_callback_error, ctx.budget(120, 5000, 400), "cberr")
-    netprops.run_scenarios(ctx, res, netprops.scenario_close, ctx.budget(120, 5000, 400), "close")
+    netprops.op_level(ctx, res, PROP, ctx.budget(350, 18000, 500), profile={"cbfail": 0.2})
+    netprops.run_scenarios(ctx, res, netprops.scenario_callback_error, ctx.budget(120, 30000, 400), "cberr")
+    netprops.run_scenarios(ctx, res, netprops.scenario_close, ctx.budget(120, 30000, 400), "close")
     return res
 
 
